@@ -862,43 +862,53 @@ class Parser(object):
                 raise ParserError(message, self.line, self.filename)
         return tags
 
+    def _step_keywords(self):
+        """Step keywords with their step type, longer keywords first, so that
+        a keyword that is a prefix of another one ("A " / "A tiež ") does not
+        hide the longer one.
+        """
+        step_keywords = [(kw, step_type)
+                         for step_type in ("given", "when", "then", "and", "but")
+                         for kw in self.keywords[step_type]]
+        step_keywords.sort(key=lambda item: -len(item[0]))
+        return step_keywords
+
     def parse_step(self, line):
-        for step_type in ("given", "when", "then", "and", "but"):
-            for kw in self.keywords[step_type]:
-                # try to match the keyword; also attempt a purely lowercase
-                # match if that'll work
-                if not (line.startswith(kw) or
-                        line.lower().startswith(kw.lower())):
-                    # -- CASE: Line does not start w/ a step-keyword.
-                    continue
+        for kw, step_type in self._step_keywords():
+            # try to match the keyword; also attempt a purely lowercase
+            # match if that'll work
+            if not (line.startswith(kw) or
+                    line.lower().startswith(kw.lower())):
+                # -- CASE: Line does not start w/ a step-keyword.
+                continue
 
-                # -- HINT: Trailing SPACE is used for most keywords.
-                # BUT: Keywords in some languages (like Chinese, Japanese, ...)
-                #      do not need a whitespace as word separator.
-                step_text_after_keyword = line[len(kw):].strip()
-                if kw.startswith("*") and self.last_step_type:
-                    # -- CASE: Generic steps and Given/When/Then steps are mixed.
-                    # HINT: Inherit step type from last step.
-                    step_type = self.last_step_type
-                elif step_type in ("and", "but"):
+            # -- HINT: Trailing SPACE is used for most keywords.
+            # BUT: Keywords in some languages (like Chinese, Japanese, ...)
+            #      do not need a whitespace as word separator.
+            step_text_after_keyword = line[len(kw):].strip()
+            if kw.startswith("*") and self.last_step_type:
+                # -- CASE: Generic steps and Given/When/Then steps are mixed.
+                # HINT: Inherit step type from last step.
+                step_type = self.last_step_type
+            elif step_type in ("and", "but"):
+                if not self.last_step_type:
+                    # -- BEST-EFFORT: Try to use last background.step.
+                    self.last_step_type = self._select_last_background_step_type()
                     if not self.last_step_type:
-                        # -- BEST-EFFORT: Try to use last background.step.
-                        self.last_step_type = self._select_last_background_step_type()
-                        if not self.last_step_type:
-                            msg = u"{step_type}-STEP REQUIRES: An previous Given/When/Then step."
-                            raise ParserError(msg.format(step_type=step_type.upper()),
-                                              self.line, self.filename)
+                        msg = u"{step_type}-STEP REQUIRES: An previous Given/When/Then step."
+                        raise ParserError(msg.format(step_type=step_type.upper()),
+                                          self.line, self.filename)
 
-                    assert self.last_step_type is not None
-                    step_type = self.last_step_type
-                    assert step_type is not None
-                else:
-                    self.last_step_type = step_type
+                assert self.last_step_type is not None
+                step_type = self.last_step_type
+                assert step_type is not None
+            else:
+                self.last_step_type = step_type
 
-                keyword = kw.rstrip()  # HINT: Strip optional trailing SPACE.
-                step = model.Step(self.filename, self.line,
-                                  keyword, step_type, step_text_after_keyword)
-                return step
+            keyword = kw.rstrip()  # HINT: Strip optional trailing SPACE.
+            step = model.Step(self.filename, self.line,
+                              keyword, step_type, step_text_after_keyword)
+            return step
         return None
 
     def _select_last_background_step_type(self):
